@@ -17,6 +17,7 @@ def run(res):
     K2 = wc.base(Acts={'add', 'remove', 'clear', 'toggle', 'probe', 'proc', 'process'}, Ids={1}, MaxAuto=1, Types=wc.T2, Bases=wc.BASES2,
                  MaxQ=3, Prios={0}, **wc.comps(C2P), **P)
     wc.check_and_replay(res, 'c02_processors', K2, own | {'processors'}, depth_all=0, walks=1000)
+    wc.trace_validate(res, 'c02_recorded', wc.big({'create', 'create2', 'add', 'remove', 'delete', 'process', 'clear', 'toggle', 'proc'}), 2000 if th else 150, 60)
     for sw, inv in [('ImmediateDeleteNotifies', ('RegisteredIffAttached',)), ('ClearKeepsSelf', ('WorldListensToItself',)),
                     ('RelayOnlyDeclared', ('NoBadRelay',)), ('CreateNotifiesReplaced', ('RegisteredIffAttached',))]:
         wc.switch_run(res, 'c02', K, sw, inv)
